@@ -172,7 +172,7 @@ class CorrSim:
         cls = {'enq': p.EnquireLink, 'unbind': p.Unbind, 'bind': p.BindTransceiver}[kind]
         return cls(sequence_num=seq)
 
-    def deliver(self, seq, text, sar=None, payload=False, receipt=None, tlv_id=None, esm=None):
+    def deliver(self, seq, text, sar=None, payload=False, receipt=None, tlv_id=None, esm=None, text_name='text'):
         """receipt: None or (id, err or None)"""
         from aiosmpplib.protocol import DeliverSm
         from aiosmpplib.state import (OptionalParam, SAR_MSG_REF_NUM, SAR_SEGMENT_SEQNUM, SAR_TOTAL_SEGMENTS,
@@ -189,8 +189,8 @@ class CorrSim:
         if receipt is not None:
             esm_class = 4
             rid, err = receipt
-            text = 'id:%s sub:001 dlvrd:001 submit date:2501011200 done date:2501011201 stat:DELIVRD%s text:%s' % (
-                rid, '' if err is None else ' err:%03d' % err, text)
+            text = 'id:%s sub:001 dlvrd:001 submit date:2501011200 done date:2501011201 stat:DELIVRD%s %s:%s' % (
+                rid, '' if err is None else ' err:%03d' % err, text_name, text)
         if tlv_id is not None:
             params.append(OptionalParam(RECEIPTED_MESSAGE_ID, tlv_id))
         if esm is not None:
